@@ -12,7 +12,7 @@ import struct
 
 from mc import pattern
 from mc.models import DATA, HOLE, GuestDisk
-from mc.vfile import Image
+from mc.vfile import Image, slot_range
 
 HDR = "<16sIIIIIQIIIQ"
 SIG = {1: b"WithoutFreeSpace", 2: b"WithouFreSpacExt"}
@@ -59,7 +59,7 @@ def build_hds(states, slots, spc, version=2, size_sectors=None, layer=1, skew=0,
         nslots = max(used, default=0) + 1
     inv = {p: i for i, (st, p) in enumerate(zip(states, slots)) if st == DATA}
     lo = (hdr_end + cl - 1) // cl  # first whole slot after the tables
-    for p in range(min(lo, first), nslots + (1 if tail_slack else 0)):
+    for p in slot_range(min(lo, first), nslots + (1 if tail_slack else 0), used):
         off = p * cl + skew * 512
         if p in inv:
             img.put_pattern(off, cl, layer, inv[p] * cl)
